@@ -24,7 +24,7 @@ import finam as fm
 from finam.data.tools import mask as mask_tools
 
 from .. import common
-from ..fmutil import T, ad, err_class, us
+from ..fmutil import limited, T, ad, err_class, us
 
 MODULES = ["Info", "InfoLemmas"]
 GEN_OBLIGATIONS = ["mask_enum"]
@@ -54,6 +54,9 @@ GRIDS = [
     ("nogrid1_flex", fm.NoGrid(1)),
     ("nogrid1_5", fm.NoGrid(data_shape=(5,))),
     ("nogrid1_7", fm.NoGrid(data_shape=(7,))),
+    # two rectilinear grids with the same extent and node count, one interior node apart: different data locations
+    ("rect_a", fm.RectilinearGrid([np.array([0.0, 1.0, 3.0, 4.0]), np.array([0.0, 1.0, 2.0])])),
+    ("rect_b", fm.RectilinearGrid([np.array([0.0, 2.0, 3.0, 4.0]), np.array([0.0, 1.0, 2.0])])),
 ]
 GRID_NAMES = [n for n, _ in GRIDS]
 _A = np.zeros((2, 3), dtype=bool)
@@ -200,6 +203,7 @@ def gen_info(rng, producer, adapter, partner=None):
     if friendly:
         pg = partner["grid"]
         grid = rng.choice([pg, pg, None] + ([rng.choice(U34)] if pg in U34 else []) + ([7, 8] if pg in (7, 8) else [])
+                          + ([12, 13] if pg in (12, 13) else [])
                           + ([9, 10, 11, pg] if pg in NOGRID1 else []))
         if pg is None:
             grid = rng.choices([0, 1, 2, 3, 4, 6], [10, 40, 15, 10, 10, 5])[0]
@@ -227,7 +231,7 @@ def gen_info(rng, producer, adapter, partner=None):
         elif r < 0.45:
             mask = rng.choice(fits)
     else:
-        grid = rng.choices([None, 0, 1, 2, 3, 4, 5, 6, 7, 8, 9, 10, 11], [22, 10, 28, 12, 8, 8, 4, 6, 5, 5, 4, 4, 3])[0]
+        grid = rng.choices([None, 0, 1, 2, 3, 4, 5, 6, 7, 8, 9, 10, 11, 12, 13], [22, 10, 28, 12, 8, 8, 4, 6, 5, 5, 4, 4, 3, 5, 5])[0]
         if adapter in ("regrid", "g2v") and grid in NOGRID1:
             grid = 0  # (grid-less arrays of rank 1 behind a regridding / grid-to-value adapter: outside the model)
         units = rng.choices([None, 0, 1, 2, 3, 4, 5], [22, 30, 15, 8, 8, 8, 9])[0]
@@ -235,11 +239,11 @@ def gen_info(rng, producer, adapter, partner=None):
         mask = rng.choice(fits) if rng.random() < 0.45 else "flex"
     meta = []
     if rng.random() < 0.45:
-        meta = [["foo", rng.choice([None, 1, 1, 2])]]
+        meta = [["foo", rng.choice([None, 1, 1, 2, 0])]]   # (0: a set value that is falsy)
         if friendly and partner["meta"] and partner["meta"][0][1] is None and meta[0][1] is None:
             meta = [["foo", 1]]
     if friendly and partner["meta"] and partner["meta"][0][1] is None and not meta and rng.random() < 0.8:
-        meta = [["foo", rng.choice([1, 2])]]
+        meta = [["foo", rng.choice([1, 2, 2])]]
     time = rng.choice([None, 0, 0, 1, 2]) if not producer else rng.choice([None, 0, 0])
     if friendly and partner["time"] is None and time is None and rng.random() < 0.8:
         time = rng.choice([0, 1])
@@ -390,7 +394,7 @@ def run_impl(case):
             node >> cons[(b, j)].inputs["in"]
     res = {"error": None, "msg": None}
     try:
-        comp.connect(T(0))
+        limited(60, comp.connect, T(0))
     except Exception as e:  # noqa
         res["error"] = err_class(e)
         res["msg"] = f"{type(e).__name__}: {str(e)[:200]}"
@@ -689,7 +693,7 @@ def run_relay(case):
     src.outputs["out"] >> rel.inputs["in"]
     rel.outputs["out"] >> snk.inputs["in"]
     try:
-        comp.connect(T(0))
+        limited(60, comp.connect, T(0))
     except Exception as e:  # noqa
         return {"error": err_class(e), "msg": str(e)[:200]}
     link = lambda o, i: {"delivered": canon_info(o.info), "input": canon_info(i.info)}  # noqa
